@@ -20,6 +20,9 @@ pub enum Op {
     Rpc(u8),
     Layer,
     Merge(Vec<Op>),
+    /// the router built so far is cloned, the clone is extended by these operations (a layer,
+    /// further routes), and merged back: both sides contain the routes of the common base
+    MergeClone(Vec<Op>),
 }
 
 #[derive(Clone, Debug, Serialize, Deserialize, PartialEq, Eq, Hash)]
@@ -129,15 +132,17 @@ fn count_svcs(ops: &[Op]) -> usize {
         .map(|o| match o {
             Op::Route(_) | Op::Rpc(_) => 1,
             Op::Layer => 0,
-            Op::Merge(sub) => count_svcs(sub),
+            Op::Merge(sub) | Op::MergeClone(sub) => count_svcs(sub),
         })
         .sum()
 }
 
 impl Builder {
     fn build(&mut self, ops: &[Op]) -> (Router, MRouter) {
-        let mut r = Router::new();
-        let mut m = MRouter::default();
+        self.apply(Router::new(), MRouter::default(), ops)
+    }
+
+    fn apply(&mut self, mut r: Router, mut m: MRouter, ops: &[Op]) -> (Router, MRouter) {
         for op in ops {
             match op {
                 Op::Route(p) => {
@@ -167,6 +172,11 @@ impl Builder {
                 }
                 Op::Merge(sub) => {
                     let (sr, sm) = self.build(sub);
+                    r = r.merge(sr);
+                    m.merge(sm);
+                }
+                Op::MergeClone(sub) => {
+                    let (sr, sm) = self.apply(r.clone(), m.clone(), sub);
                     r = r.merge(sr);
                     m.merge(sm);
                 }
@@ -211,7 +221,7 @@ fn has_layer_after_merge(ops: &[Op]) -> bool {
     let mut seen_merge = false;
     for o in ops {
         match o {
-            Op::Merge(sub) => {
+            Op::Merge(sub) | Op::MergeClone(sub) => {
                 if !sub.is_empty() {
                     seen_merge = true;
                 }
@@ -245,6 +255,14 @@ pub fn check(case: &Case, obs: &mut Obs) -> Result<(), Fail> {
             vfail!("c16:build-panic", "router construction panicked unexpectedly: {msg}");
         }
     };
+    // A merge that was accepted must have preserved every registration of both sides. Two registrations
+    // of the same pattern that differ in service or middleware cannot both be preserved: such a merge
+    // has to be refused at construction (it is, with "Invalid route"), never resolved silently.
+    for (i, a) in model.routes.iter().enumerate() {
+        if let Some(b) = model.routes[i + 1..].iter().find(|b| b.pattern == a.pattern && (b.svc != a.svc || b.layers != a.layers)) {
+            vfail!("c16:merge-dropped-registration", "the router accepted a merge in which pattern {:?} is registered twice with different service/middleware (service {} layers {:?} vs service {} layers {:?}); one of them is silently lost", a.pattern, a.svc, a.layers, b.svc, b.layers);
+        }
+    }
     let mut one_edit = false;
     for probe in &case.probes {
         let (path, edited) = resolve(probe, &model);
@@ -334,6 +352,7 @@ fn ops(depth: u32) -> BoxedStrategy<Vec<Op>> {
             prop_oneof![
                 8 => leaf,
                 2 => ops(depth - 1).prop_map(Op::Merge),
+                1 => ops(depth - 1).prop_map(Op::MergeClone),
             ],
             0..7,
         )
@@ -362,7 +381,7 @@ impl Part for Tables {
     type Case = Case;
     fn name(&self) -> &'static str { "tables" }
     fn rule(&self) -> &'static str {
-        "route tables built by generated sequences of route (exact and /x/*tail patterns), add_rpc_service, route_layer and nested merge, probed with 30 route strings (the table's own paths, one-edit variants: trailing slash added/removed, truncated, extended, case changed, leading slash dropped; plus empty, '//', ':' '*' '%' NUL, unicode, 10^4 chars); tables refused at construction with 'Invalid route' are discarded and counted; non-trivial = table with >=1 wildcard and a layer applied after a merge, or a probe that is one edit away from a registered path; distinct by whole case"
+        "route tables built by generated sequences of route (exact and /x/*tail patterns), add_rpc_service, route_layer, nested merge and merge of an extended clone of the router built so far (shared base), probed with 30 route strings (the table's own paths, one-edit variants: trailing slash added/removed, truncated, extended, case changed, leading slash dropped; plus empty, '//', ':' '*' '%' NUL, unicode, 10^4 chars); tables refused at construction with 'Invalid route' are discarded and counted; non-trivial = table with >=1 wildcard and a layer applied after a merge, or a probe that is one edit away from a registered path; distinct by whole case"
     }
     fn strategy(&self, _t: Tier) -> BoxedStrategy<Case> {
         let probe = prop_oneof![
@@ -386,6 +405,9 @@ pub enum WireProbe {
 #[derive(Clone, Debug, Serialize, Deserialize, PartialEq, Eq, Hash)]
 pub struct WireCase {
     pub probes: Vec<WireProbe>,
+    /// Some(i): the network's service is the i-th GENERATED rpc server itself, without a Router in front
+    #[serde(default)]
+    pub direct: Option<u8>,
 }
 
 fn wire_route(p: &WireProbe) -> String {
@@ -395,7 +417,7 @@ fn wire_route(p: &WireProbe) -> String {
         WireProbe::Method { m, edit, extra } => {
             let r = route_of(METHODS[*m as usize % METHODS.len()]).0;
             let (svc, method) = r[1..].split_once('/').unwrap();
-            match edit % 13 {
+            match edit % 18 {
                 0 | 1 => r.to_string(),
                 2 => format!("/{svc}/{extra}/{method}"),
                 3 => format!("/{svc}/{method}/{method}"),
@@ -407,6 +429,11 @@ fn wire_route(p: &WireProbe) -> String {
                 9 => format!("/{svc}/{method}{extra}"),
                 10 => format!("/{svc}/"),
                 11 => format!("/{svc}"),
+                13 => format!("/{svc}//{svc}/{method}"),
+                14 => format!("/{svc}/{svc}/{method}"),
+                15 => method.to_string(),
+                16 => format!("/{method}"),
+                17 => format!("/{svc}/{svc}/"),
                 _ => format!("/{}/{method}", ["Echo", "a.b.Echo", "example.Greeter", "b.Echo", "Greeter"][extra.len() % 5]),
             }
         }
@@ -418,15 +445,15 @@ impl Part for OverTheWire {
     type Case = WireCase;
     fn name(&self) -> &'static str { "over-the-wire" }
     fn rule(&self) -> &'static str {
-        "a network whose service is a Router with an exact route, a wildcard route and the three GENERATED rpc services of the C17 family (12 methods); a remote peer sends 12 requests with generated route strings: the methods' own routes, edits of them (segment inserted, method repeated, other/unknown service prefix, trailing slash, case, missing leading slash, doubled slash, suffix, bare service prefix) and odd strings (empty, no slash, '//', NUL and control characters, unicode, 10^4 chars); oracle: every request gets a response (never a transport error); the handler method whose route equals the string runs exactly once, the exact/wildcard services answer theirs, and everything else gets NotFound and runs nothing; non-trivial = case with an edited method route or an odd string; distinct by case"
+        "a network whose service is a Router with an exact route, a wildcard route and the three GENERATED rpc services of the C17 family (12 methods) - or, in 3 of 10 cases, one of the generated servers serving directly without a Router; a remote peer sends 12 requests with generated route strings: the methods' own routes, edits of them (segment inserted, method repeated, other/unknown service prefix, trailing slash, case, missing leading slash, doubled slash, suffix, bare service prefix, the prefix repeated, the bare method name) and odd strings (empty, no slash, '//', NUL and control characters, unicode, 10^4 chars); oracle: every request gets a response (never a transport error); the handler method whose route equals the string runs exactly once, the exact/wildcard services answer theirs, and everything else gets NotFound and runs nothing; non-trivial = case with an edited method route or an odd string; distinct by case"
     }
     fn strategy(&self, _t: Tier) -> BoxedStrategy<WireCase> {
         let probe = prop_oneof![
-            3 => (0u8..12, 0u8..13, prop_oneof![Just("v2".to_string()), Just("x".to_string()), "[a-zA-Z.]{0,6}"]).prop_map(|(m, edit, extra)| WireProbe::Method { m, edit, extra }),
+            3 => (0u8..12, 0u8..18, prop_oneof![Just("v2".to_string()), Just("x".to_string()), "[a-zA-Z.]{0,6}"]).prop_map(|(m, edit, extra)| WireProbe::Method { m, edit, extra }),
             1 => weird().prop_map(WireProbe::Raw),
             1 => prop::sample::select(vec!["/exact", "/exact/", "/wild/", "/wild/a/b", "/wild", "/Exact"]).prop_map(|s| WireProbe::Raw(s.to_string())),
         ];
-        prop::collection::vec(probe, 12).prop_map(|probes| WireCase { probes }).boxed()
+        (prop::collection::vec(probe, 12), prop::option::weighted(0.3, 0u8..3)).prop_map(|(probes, direct)| WireCase { probes, direct }).boxed()
     }
     fn run(&self, case: &WireCase, obs: &mut Obs) -> Result<(), Fail> {
         use crate::props::c17::{self, route_of, METHODS};
@@ -439,7 +466,13 @@ impl Part for OverTheWire {
                 .route("/exact", Tagged { id: 0, counter: counter.clone() })
                 .route("/wild/*rest", Tagged { id: 1, counter: counter.clone() });
             let spec = NodeSpec::new(0);
-            let server = sim.start_node(&spec, router).map_err(|e| Fail::Inconclusive(e.to_string()))?;
+            let server = match case.direct.map(|d| d % 3) {
+                None => sim.start_node(&spec, router),
+                Some(0) => sim.start_node(&spec, c17::s1::echo_server::EchoServer::new(log.clone())),
+                Some(1) => sim.start_node(&spec, c17::s2::echo_server::EchoServer::new(log.clone())),
+                Some(_) => sim.start_node(&spec, c17::s3::greeter_server::GreeterServer::new(log.clone())),
+            }.map_err(|e| Fail::Inconclusive(e.to_string()))?;
+            let direct_prefix = case.direct.map(|d| ["/Echo/", "/a.b.Echo/", "/example.Greeter/"][d as usize % 3]);
             let a = sim.node(1)?;
             match within(20_000, a.net.connect(spec.addr)).await {
                 Ok(Ok(_)) => {}
@@ -449,7 +482,7 @@ impl Part for OverTheWire {
             let mut interesting = false;
             for (i, p) in case.probes.iter().enumerate() {
                 let route = wire_route(p);
-                let method = METHODS.iter().find(|m| route_of(m).0 == route);
+                let method = METHODS.iter().find(|m| route_of(m).0 == route && direct_prefix.map_or(true, |p| route.starts_with(p)));
                 let body = match method {
                     Some(m) if route_of(m).1 => serde_json::to_vec(&msg).unwrap(),
                     _ => bincode::serialize(&msg).unwrap(),
@@ -463,7 +496,7 @@ impl Part for OverTheWire {
                 };
                 let ran: Vec<String> = log.invoked()[before_log..].to_vec();
                 let tagged: Vec<u32> = counter.iter().zip(&before).map(|(c, b)| c.load(Ordering::SeqCst) - b).collect();
-                let want_tag = if route == "/exact" { Some(0) } else if route.starts_with("/wild/") { Some(1) } else { None };
+                let want_tag = if case.direct.is_some() { None } else if route == "/exact" { Some(0) } else if route.starts_with("/wild/") { Some(1) } else { None };
                 match (method, want_tag) {
                     (Some(m), _) => {
                         vensure!(ran == vec![m.to_string()] && tagged == vec![0, 0], "c16:wrong-service", "probe {i}: route {:?} ran handlers {:?} (and plain services {:?}), expected exactly {m}", shown, ran, tagged);
